@@ -6,6 +6,18 @@ props = [json.loads(l) for l in open(os.path.join(HERE, "properties.jsonl"))]
 
 # id -> (technique, level text, level note, design ref)
 CHECKS = {
+ "C10": ("proptest stateful event sequences against the real Service + history/store-delta oracle",
+         "Exploration: generated delivery/redelivery/tick/connect/subscribe sequences drive the real radicle-node Service (sqlite database, mock storage); after every event the gossip-store delta and every outgoing write are judged against the statement (valid signature, <= 1h ahead, strictly newer, known announcer, never echoed to a deliverer or the announcer).",
+         "Trusts the harness model of 'who delivered what' (a delivery counts once the node processed it as gossip), MockSigner keys, and the emulation of the runtime reacting to Io::Disconnect. Timestamp 0 is left to C13.",
+         "DESIGN.md C10"),
+ "C11": ("proptest stateful event sequences against the real Service + visibility invariant over every outgoing write",
+         "Exploration: generated sequences of subscriptions, own and relayed refs announcements, fetch results, restarts (new Service on the same databases), visibility flips and connections; every Io::Write of a refs or own inventory announcement is judged against the storage document at send time with an independent visibility predicate. Two genuine residual windows are listed as known findings; three leaks were fixed.",
+         "Trusts MockStorage (wrapped to report synced_at) as the source of truth for visibility; AddInventory is only issued for public repositories because every caller checks that first.",
+         "DESIGN.md C11"),
+ "C29": ("proptest stateful event sequences against the real Service + monotonicity invariant over first-visibility of signed announcements",
+         "Exploration: clock ticks forward/equal/backward interleaved with every action that makes the node sign an announcement; announcements first observable after an event were signed in it and must carry timestamps greater than everything observed earlier (pairwise distinct within the event).",
+         "Signing order is observed through first visibility in the outbox or the gossip store; restarts are excluded (new run).",
+         "DESIGN.md C29"),
  "C23": ("proptest generated DAGs + exhaustive small-DAG enumeration vs adjacency-set reference model",
          "Exploration: every DAG with <=4 (quick) / <=5 (thorough) nodes under three relabellings x all break masks x all start sets is enumerated and compared with a bitmask reference model for sorted/sorted_by/fold/prune/prune_by/merge; random DAGs up to 14 nodes on top. Exhaustive only for those sub-spaces, no claim beyond them.",
          "Trusts the harness reference model (transitive closure on bitmasks) and proptest; graphs are well-formed, comparators total, predicates stateless.",
